@@ -64,4 +64,5 @@ def fresh_twin_stage(ctx):
 
 def run(ctx):
     return run_solver_property(ctx, "C04", codes=("C01", "C04", "C08.absent", "C08.finite", "C15"), focus_mix=("updates", "updates", "mixed"),
+                               extra_theorem_files=("Properties_C15.v", "Properties_C13.v", "Properties_C01.v", "Properties_C10.v"),
                                extra_stage=fresh_twin_stage)
